@@ -24,6 +24,7 @@ type Job struct {
 	Vars    []string `json:"vars,omitempty"` // value of $v (JSON text), built like inputs
 	Mode    string   `json:"mode,omitempty"` // C06: restrict to one mode
 	Other   string   `json:"other,omitempty"` // C05: the input of the runs in between (steers per-Code state)
+	Ref     string   `json:"ref,omitempty"`   // C05: a reference program that must yield the same outputs
 }
 
 // LoadJobs reads a JSON array of jobs written by the check (corpus extracted from cli/test.yaml).
@@ -212,6 +213,44 @@ func Snap(v any) string {
 	return SexpVal(v)
 }
 
+// SnapCap is Snap for memory the run must not write at all: arrays are rendered over their whole
+// capacity (v[:cap(v)]), so a write into the hidden capacity of a code constant or of caller memory shows.
+func SnapCap(v any) string {
+	if Depth(v, 300) > 300 {
+		return "(toodeep)"
+	}
+	var b strings.Builder
+	snapCap(&b, v)
+	return b.String()
+}
+
+func snapCap(b *strings.Builder, v any) {
+	switch v := v.(type) {
+	case []any:
+		fmt.Fprintf(b, "(a%d/%d", len(v), cap(v))
+		for _, x := range v[:cap(v)] {
+			b.WriteByte(' ')
+			snapCap(b, x)
+		}
+		b.WriteByte(')')
+	case map[string]any:
+		ks := make([]string, 0, len(v))
+		for k := range v {
+			ks = append(ks, k)
+		}
+		sort.Strings(ks)
+		b.WriteString("(o")
+		for _, k := range ks {
+			b.WriteString(" (" + Hexs([]byte(k)) + " ")
+			snapCap(b, v[k])
+			b.WriteByte(')')
+		}
+		b.WriteByte(')')
+	default:
+		b.WriteString(SexpVal(v))
+	}
+}
+
 // Bytes is the serialisation the library offers (gojq.Marshal), or the error text.
 func Bytes(v any) string {
 	if e, ok := v.(error); ok {
@@ -336,6 +375,9 @@ func CaseText(kind string, j Job, extra string) string {
 	if j.Other != "" {
 		s += " other=" + esc.Replace(compact(j.Other))
 	}
+	if j.Ref != "" {
+		s += " ref=" + esc.Replace(j.Ref)
+	}
 	return fmt.Sprintf("%s input=%s program=%s", s, esc.Replace(compact(j.Input)), esc.Replace(j.Program))
 }
 
@@ -382,6 +424,10 @@ func ParseCase(text string) (kind, extra string, j Job, ok bool) {
 	j.Program = unesc(text[pi+len(" program="):])
 	j.Input = unesc(text[ii+len(" input="):pi])
 	head := text[:ii]
+	if ri := strings.Index(head, " ref="); ri >= 0 {
+		j.Ref = unesc(head[ri+len(" ref="):])
+		head = head[:ri]
+	}
 	if oi := strings.Index(head, " other="); oi >= 0 {
 		j.Other = unesc(head[oi+len(" other="):])
 		head = head[:oi]
